@@ -205,10 +205,11 @@ def run_case(rng, cnt, cfg=None):
     per, refl = cfg["per"], cfg["refl"]
     n_iter = rng.randint(2, 5)
     n_warm = rng.randint(1, 2)
-    resume_at = rng.randint(1, n_iter - 1) if rng.random() < 0.35 else None
+    resume_at = rng.randint(1, n_iter) if rng.random() < 0.45 else None
     next_tag = [1]
     allinf = set()
     tapes, rets = [], []
+    events = []
 
     def fresh(k):
         t = list(range(next_tag[0], next_tag[0] + k))
@@ -218,24 +219,8 @@ def run_case(rng, cnt, cfg=None):
     runner_cls = mcmc.RWMRunner if cfg["kernel"] == "rwm" else mcmc.TPCNRunner
     with warnings.catch_warnings(), contextlib.redirect_stdout(io.StringIO()):
         warnings.simplefilter("ignore")
-        pool_size = 0
-        for it in range(n_iter):
-            if resume_at is not None and it == resume_at:
-                # checkpoint: save, build a FRESH sampler of the same configuration, load, go on with that one
-                fd, path = tempfile.mkstemp(suffix=".state")
-                os.close(fd)
-                try:
-                    env.s.save_state(path)
-                    env2 = Env(**cfg)
-                    env2.s.load_state(path)
-                finally:
-                    for q in (path, path + ".temp"):
-                        if os.path.exists(q):
-                            os.remove(q)
-                env2.infset = env.infset
-                env2.mids = env.mids
-                env = env2
-                cnt("resumed_from_checkpoint")
+        def one_iter(env, it, pool_size, tapes, rets, cnt):
+            """one `Sampler.sample()` of `env` under scripted randomness; appends its tape and the returned blobs column"""
             warm = it < n_warm
             if warm:
                 # the redraw loop of /repo 959029e: 0..2 batches WITHOUT a finite draw come first and are discarded
@@ -243,14 +228,14 @@ def run_case(rng, cnt, cfg=None):
                 dead = [fresh(n) for _ in range(n_dead)]
                 for b_ in dead:
                     env.infset |= set(b_)
-                    allinf |= set(b_)
+                    allinf.update(b_)
                 tags = fresh(n)
                 frac = rng.choice([0.0, 0.0, 0.3, 0.6, 0.9])
                 inf_local = [k for k in range(n) if rng.random() < frac]
                 if len(inf_local) == n:
                     inf_local.pop()          # the batch that ends the loop has a finite draw
                 env.infset |= {tags[k] for k in inf_local}
-                allinf |= {tags[k] for k in inf_local}
+                allinf.update(tags[k] for k in inf_local)
                 picks = []
 
                 def fake_choice(a, size=None, replace=True, p=None):
@@ -334,7 +319,53 @@ def run_case(rng, cnt, cfg=None):
                 a, b = ret[key], live[key]
                 if (a is None) != (b is None) or (a is not None and not np.array_equal(np.asarray(a), np.asarray(b))):
                     raise AssertionError(f"sample() returned a {key} array that is not the current one")
+
+        def resume(env, it):
+            """checkpoint of `env`, loaded into ANOTHER sampler object of the same configuration, which then carries on.
+            The other object is either fresh, or USED: it has run its own (different) iterations — as many as the checkpoint
+            holds, so that nothing can fail on a length — and has been queried, so whatever it caches about its own history
+            is warm when the foreign state arrives."""
+            how = rng.choice(["fresh", "used", "used"])
+            events.append(f"after iteration {it}: checkpoint loaded into a {how} sampler object")
+            env2 = Env(**cfg)
+            env2.infset = env.infset
+            if how == "used":
+                noop = lambda *a: None
+                for j in range(it):
+                    one_iter(env2, j, j * n, [], [], noop)
+                warmers = rng.choice([["logw"], ["logw"], ["posterior"], ["results"], ["logw", "results"], []])
+                for wm in warmers:
+                    if wm == "logw":
+                        env2.state.compute_logw_and_logz(1.0)       # what run()'s epilogue and _not_termination do
+                    elif wm == "posterior":
+                        env2.s.posterior(return_blobs=True, trim_importance_weights=False)
+                    elif wm == "results":
+                        env2.s.results()
+                events[-1] += f" (own run of {it} iterations, then queried: {'+'.join(warmers) or 'nothing'})"
+                cnt("load_into_used_sampler(" + "+".join(warmers or ["unqueried"]) + ")")
+            else:
+                cnt("load_into_fresh_sampler")
+            fd, path = tempfile.mkstemp(suffix=".state")
+            os.close(fd)
+            try:
+                env.s.save_state(path)
+                env2.s.load_state(path)
+            finally:
+                for q in (path, path + ".temp"):
+                    if os.path.exists(q):
+                        os.remove(q)
+            env2.mids = env.mids
+            cnt("resumed_from_checkpoint")
+            return env2
+
+        pool_size = 0
+        for it in range(n_iter):
+            if resume_at is not None and it == resume_at:
+                env = resume(env, it)
+            one_iter(env, it, pool_size, tapes, rets, cnt)
             pool_size += n
+        if resume_at == n_iter:
+            env = resume(env, n_iter)      # load right before everything is read back and posterior() is queried
         st_ = env.state
         impl = {"cur": fcur(st_.get_current())}
         L = st_.get_history_length()
@@ -391,7 +422,7 @@ def run_case(rng, cnt, cfg=None):
             f"per={','.join(map(str, per)) if per else '-'} refl={','.join(map(str, refl)) if refl else '-'} "
             f"inf={','.join(map(str, sorted(allinf))) if allinf else '-'} d={d} tapes={';'.join(tapes)} "
             f"logw={','.join(toks)} posts={';'.join(posts)}")
-    return line, impl, cfg
+    return line, impl, dict(cfg, events=events)
 
 
 def parse_model(ans):
@@ -629,6 +660,17 @@ def oracle_sm(rng, n_cases):
         bad = None
         u, x, l, b = impl["cur"].split("|")
         bad = rows_ok(u, x, l, b, "current")
+        if not bad and impl["mid"]:
+            for k, pair in enumerate(impl["mid"].split(";")):
+                for where, snap in zip(("after resampler.run", "after mutator.run"), pair.split("~")):
+                    u, x, l, b = snap.split("|")
+                    if u == "N":
+                        continue
+                    bad = rows_ok(u, x, l, b, f"iteration {k} {where}")
+                    if bad:
+                        break
+                if bad:
+                    break
         if not bad:
             hu, hx, hl, hb = impl["hist"].split("|")
             hbs = hb.split(";") if hb != "-" else None
